@@ -298,6 +298,10 @@ impl<'a> G<'a> {
     fn len(&mut self) -> usize {
         // biased to 0..3, sometimes up to max_len, and to the 255/256 boundary for long profiles
         let r = self.rng.below(100);
+        if self.rng.below(64) == 0 {
+            // every profile occasionally crosses the 255/256 boundary and beyond
+            return 250 + self.rng.below(60);
+        }
         if r < 50 {
             self.rng.below(4)
         } else if r < 85 {
